@@ -74,7 +74,10 @@ def explore(task):
             out_ocs = outs_out if "output" in sel else [None]
             supplied_opts = [True, False] if "dialog" not in sel else [False]
             paths = (["predef", "llm"] if dialog_world else ["general"]) if "dialog" in sel else ["none"]
-            for in_oc, out_oc, supplied, path, tk in itertools.product(in_ocs, out_ocs, supplied_opts, paths, ("plain", "hostile")):
+            firsts = [None] if "dialog" in sel else [None, "blocked-input-only-call", "allowed-input-only-call"]
+            for in_oc, out_oc, supplied, path, tk, first in itertools.product(in_ocs, out_ocs, supplied_opts, paths, ("plain", "hostile"), firsts):
+                if first and (tk == "hostile" or form == "dict"):
+                    continue
                 if "output" in sel and "dialog" not in sel and not supplied:
                     continue  # output rails without any bot message: not covered by the statement
                 if out_oc is not None and "dialog" in sel and path == "predef" and any(k != "A" for k in out_oc):
@@ -97,15 +100,26 @@ def explore(task):
                 elif out_oc is not None:
                     v_out, _, _, _ = plan(OUT_ORDER, out_oc, "?", f"RWB{n[0]}q")
                 verdicts.update(v_out)
-                turn = rw.run_turn(world, msgs, verdicts, llm_fn_for(path), options=options)
+                state = None
+                if first:
+                    # an earlier rails-only call of the same conversation (continued through `state`)
+                    t0 = rw.run_turn(world, [{"role": "user", "content": f"F{n[0]}q first"}],
+                                     {"in1": "R" if first.startswith("blocked") else "A", "in2": "A", "ret1": "A"}, llm_fn_for(path),
+                                     options={"rails": ["input"]}, state={})
+                    if t0.exc is not None or t0.reply is None:
+                        res["viol"].append((f"generate-raised:first-call", repr(t0.exc), {"first": first}))
+                        continue
+                    state = t0.reply.state
+                    res["two_call_cases"] = res.get("two_call_cases", 0) + 1
+                turn = rw.run_turn(world, msgs, verdicts, llm_fn_for(path), options=options, state=state)
                 res["evaluations"] += 1
                 info = {"engine": "E3-world", "prop": "C16", "dialog_world": dialog_world, "subset": list(subset), "form": form,
                         "in_outcome": "".join(in_oc) if in_oc else None, "out_outcome": "".join(out_oc) if out_oc else None,
-                        "supplied": supplied, "path": path, "user": user_text, "bot": bot_text if supplied else None}
+                        "supplied": supplied, "path": path, "user": user_text, "bot": bot_text if supplied else None, "first_call": first}
                 key = "+".join(c for c in CATS if c in sel) or "none"
 
                 def bad(sig, what):
-                    res["viol"].append((f"{sig}:{key}", what, info))
+                    res["viol"].append((f"{sig}:{key}" + (f":after-{first}" if first else ""), what, info))
 
                 if turn.exc is not None:
                     bad("generate-raised", f"{turn.exc!r}")
